@@ -559,6 +559,8 @@ func propC13(c *Ctx) {
 	}
 
 	ruleEvalInherit(c, rInh, roles)
+	rsm := c.Rule("set-monotone", "the disabled set of an existing symbol table only grows: the whole set is assigned only while it is still nil or on a brand-new table", 2)
+	ruleSetMonotone(c, rsm, roles)
 }
 
 // ruleEvalInherit (shared by C13 and C01): after the evaluator's table is reset
